@@ -5,11 +5,14 @@ EXTENDS ClientSM, TLC
 CONSTANT D
 VARIABLE hist
 mcvars == <<exists, cc, cu, kc, de, du, keyVer, edbVer, st, hist>>
-Symbols == {"create", "createbad", "genkey", "encrypt", "upconfig", "upindex", "search"}
+(* "createsame": create-service run again from scratch (no sid given) with the stored, already salted configuration, *)
+(* which maps to the sid of the existing service                                                                   *)
+Symbols == {"create", "createbad", "createsame", "genkey", "encrypt", "upconfig", "upindex", "search"}
 Outs == {"ok", "refused"}
 StepOf(s) ==
     CASE s = "create"    -> \E o \in Outs : Create(TRUE, o)
       [] s = "createbad" -> \E o \in Outs : Create(FALSE, o)
+      [] s = "createsame" -> \E o \in Outs : Create(TRUE, o)
       [] s = "genkey"    -> \E o \in Outs : GenKey(o)
       [] s = "encrypt"   -> \E o \in Outs : Encrypt(o)
       [] s = "upconfig"  -> \E o \in Outs : UpConfig(o)
